@@ -5,7 +5,11 @@ from harness.common import SPEC, sany, MachineryError
 
 def main() -> int:
     import mypy.build  # noqa: F401  (from /repo's working tree)
-    mods = sorted(glob.glob(os.path.join(SPEC, "MC_*.tla")) + glob.glob(os.path.join(SPEC, "Trace_*.tla")))
+    import json
+    from harness.common import VERIF
+    claimed = {c["property_id"] for c in json.load(open(os.path.join(VERIF, "MANIFEST.json")))["checks"]}
+    reg = json.load(open(os.path.join(VERIF, "harness", "specs.json")))
+    mods = sorted({os.path.join(SPEC, m + ".tla") for p, ms in reg.items() if p in claimed for m in ms})
     bad = []
     def one(m):
         try:
